@@ -17,6 +17,7 @@ EXPLANATION = (
     "positive control). Sibling cross-check: instance floors per generator. NOT decided: second-level parsers inside a quoted "
     "word (zsh _arguments spec syntax), behaviour of real shells beyond the tabulated quoting grammar."
     ' R17.3: no cutting/editing operation (truncate, pop, slicing, take/nth ...) inside an escaping helper or on an escaped string.'
+    " R17.A accessor layer (lib/accessors.py): for the is_*_set / get_* accessors this property's rules name — the bool builder sets and unsets one flag on the right edges and the predicate reads that same flag; builder scope (global/local) as in audit/setting_scope.tsv; no two predicates/builders share a flag; setting/unset_setting/global_setting/is_set forward to the right flag word, the flag word is |=bit / &=!bit / &bit!=0 with bit = 1<<discriminant, _propagate_subcommand hands g_settings to the child's settings and g_settings; plain field getters return their field."
 )
 TRUSTED = ["rustc MIR + expanded AST", "clapfacts", "lib/strflow.py tree builder", "lib/shellq.py quoting grammars of fish/zsh/elvish/PowerShell/nushell",
            "std str::replace semantics (single-char pattern = homomorphism)"]
